@@ -78,6 +78,14 @@ func vC03Root(owner string) *consensusproto.RawRecordWithId {
 	return vC03Raw(payload, owner)
 }
 
+// root of a one-to-one space: the owner is the key both writers derive, the writers are fixed for good
+func vC03RootOneToOne() *consensusproto.RawRecordWithId {
+	root := &aclrecordproto.AclRoot{Identity: []byte("own"), SpaceId: "space", Timestamp: 1,
+		OneToOneInfo: &aclrecordproto.AclOneToOneInfo{Owner: []byte("own"), Writers: [][]byte{[]byte("a1"), []byte("a2")}}}
+	payload, _ := root.MarshalVT()
+	return vC03Raw(payload, "own")
+}
+
 func vC03Record(prev, author string, contents ...*aclrecordproto.AclContentValue) *consensusproto.RawRecordWithId {
 	data, _ := (&aclrecordproto.AclData{AclContent: contents}).MarshalVT()
 	payload, _ := (&consensusproto.Record{PrevId: prev, Identity: []byte(author), Data: data, Timestamp: 2}).MarshalVT()
@@ -205,6 +213,9 @@ func VerifC03Chain() {
 	vC03Install()
 	v := &vC03Verifier{validate: validate, acceptorOk: true}
 	root := vC03Root("own")
+	if rt.Param("oto", 0) == 1 {
+		root = vC03RootOneToOne()
+	}
 	live, store, err := vC03List([]*consensusproto.RawRecordWithId{root}, v, "obs")
 	rt.Assert(err == nil, "build-root")
 	accepted := []*consensusproto.RawRecordWithId{root}
